@@ -153,7 +153,7 @@ ClassSet(c, n, v) ==
      ELSE LET own == cdict[c][n] # 0
               pid == IF own THEN src ELSE Len(P) + 1
               isnew == v.t = "newcell"
-              val == IF isnew THEN Cell(Len(cells) + 1) ELSE v
+              val == IF isnew THEN Cell(Len(cells) + 1) ELSE IF v.t = "same" THEN P[src].default ELSE v     \* "same": c.n = c.n
               P1 == IF own THEN P ELSE Append(P, [P[src] EXCEPT !.owner = c])
           IN /\ P' = [P1 EXCEPT ![pid].default = val]
              /\ cdict' = [cdict EXCEPT ![c][n] = pid]
@@ -374,7 +374,7 @@ Kws(c) == {<<>>} \cup UNION {{[x \in {n} |-> v] : v \in (ValsFor(n) \ {BadV, Bad
 Next ==
   \/ \E c \in CSet : ReadNS(c)
   \/ \E i \in 1..MaxInst, n \in AllNames : InstParam(i, n)
-  \/ \E c \in CSet, n \in AllNames : \E v \in ValsFor(n) : ClassSet(c, n, v)
+  \/ \E c \in CSet, n \in AllNames : \E v \in ValsFor(n) \cup {[t |-> "same"]} : ClassSet(c, n, v)
   \/ \E c \in CSet, n \in {Extra} \cup {m \in Names : Kind[m] = "plain"} : \E v \in IntVals, r \in {"add", "assign"} : AddParameter(c, n, v, r)
   \/ \E c \in CSet : \E kw \in Kws(c) : New(c, kw)
   \/ \E i \in 1..MaxInst, n \in AllNames : \E v \in ValsFor(n) \cup {[t |-> "same"]} :
